@@ -247,6 +247,13 @@ def mon_hist(r, pid):
         op = s["op"]
         k = op["k"]
         pj = s["proj"]
+        # C01: a relay of an already received packet must not reach the application, even in a reverted execution
+        if pid == "C01" and prev_proj[ci] is not None:
+            for e in s.get("att", []):
+                if e[0] == "recv1" and any((x[0], x[1], x[2]) == (e[1], e[2], e[3]) for x in prev_proj[ci]["r1"]):
+                    return "step %d: a replayed MsgRecvPacket reached OnRecvPacket for (%s,%s) sequence %s (receipt already stored; the message ended %s)" % (i, e[1], e[2], e[3], s["out"])
+                if e[0] == "recv2" and any((x[0], x[1]) == (e[1], e[2]) for x in prev_proj[ci]["r2"]):
+                    return "step %d: a replayed v2 MsgRecvPacket reached OnRecvPacket for %s sequence %s (receipt already stored; the message ended %s)" % (i, e[1], e[2], s["out"])
         for e in s["evs"]:
             kind = e[0]
             if kind in ("recv1",):
